@@ -3,6 +3,11 @@
 package vam
 
 var verifEntries = map[string]func(int){
-	"Verif_C19_Select": Verif_C19_Select,
-	"Verif_C09_Pages":  Verif_C09_Pages,
+	"Verif_C19_Select":   Verif_C19_Select,
+	"Verif_C09_Pages":    Verif_C09_Pages,
+	"Verif_C02_Hist":     Verif_C02_Hist,
+	"Verif_C04_Hist":     Verif_C04_Hist,
+	"Verif_C11_Hist":     Verif_C11_Hist,
+	"Verif_C13_Hist":     Verif_C13_Hist,
+	"Verif_C20_Teardown": Verif_C20_Teardown,
 }
